@@ -572,6 +572,14 @@ func runCase(run *lib.Run, c int64, base string) {
 	if c%5 == 4 {
 		kind = "valchange"
 	}
+	if c%10 == 7 {
+		// scripted: a commit that needs the second (conflicting) precommit of an equivocating validator
+		kind = "eqvcommit"
+		n = 4
+		pw := []int64{1, 10, 7}[(c/10)%3]
+		powers, real, byz = []int64{pw, pw, pw, pw}, []bool{true, true, true, true}, []int{rng.Intn(4)}
+		real[byz[0]] = false
+	}
 	spare := -1
 	if kind == "valchange" {
 		powers = append(powers, 0) // a full node that may be added as validator
@@ -656,6 +664,15 @@ func runCase(run *lib.Run, c int64, base string) {
 				break
 			}
 		}
+	} else if kind == "eqvcommit" {
+		m.label = "eqvcommit"
+		run.Count("equivocal_commit_cases", 1)
+		if adv.AttackEquivocalCommit() {
+			run.Count("equivocal_commit_staged", 1)
+			run.Nontrivial(fmt.Sprintf("eqc/%d", c))
+		}
+		adv.RunUntil(target, 1500)
+		adv.FairSuffix(target, 8000)
 	} else {
 		mu := muts[int(c/5*4+c%5)%len(muts)]
 		m.label = "badblock:" + mu.name
@@ -740,5 +757,6 @@ func main() {
 	run.Require("malformed_rejected", 100)
 	run.Require("wellformed_byzantine_block_committed", 5)
 	run.Require("validator_set_changes", 20)
+	run.Require("equivocal_commit_staged", 10)
 	os.Exit(run.Finish())
 }
